@@ -79,7 +79,8 @@ def run(ctx, jobs=None):
     work = [(pid, m) for m in seeded + benign]
     res = {}
     if work:
-        with cf.ProcessPoolExecutor(max_workers=jobs) as ex:
+        from .check import guard_resources
+        with cf.ProcessPoolExecutor(max_workers=jobs, initializer=guard_resources, initargs=(3,)) as ex:
             for mid, status, keys in ex.map(_run_one, work, chunksize=1):
                 res[mid] = (status, keys)
     caught = skipped = 0
